@@ -799,7 +799,7 @@ def classify(I: dict, e: BaseException) -> str:
             return "bad-qual-name"
         if "not subscriptable" in s or "indices must be integers" in s:
             return "exc-not-subscriptable"
-        return "type-error:" + s[:60]
+        return "type-error"
     if isinstance(e, ImportError):
         return "import-error"
     if isinstance(e, AttributeError):
@@ -809,7 +809,7 @@ def classify(I: dict, e: BaseException) -> str:
             return "data-not-dict"
         if "not found in module" in s:
             return "import-error"
-        return "attribute-error:" + s[:60]
+        return "attribute-error"
     if isinstance(e, ValueError) and "Qualified name must be" in s:
         return "import-error"
     if isinstance(e, KeyError):
@@ -818,8 +818,8 @@ def classify(I: dict, e: BaseException) -> str:
             return "key-error"
         if k == "exception_message":
             return "exc-key-error"
-        return "key-error:" + repr(k)
-    return type(e).__name__ + ":" + s[:60]
+        return "key-error:other"
+    return "raised-" + type(e).__name__
 
 
 TAGS = {"step_result", "add_event", "cancel_run", "publish_event", "timeout", "waiter_timeout", "idle_check", "idle_release",
